@@ -7,12 +7,24 @@ case = {
                                          binutils ``ar qcD`` and must be byte-identical to ours
   "members": [{"name": str, "style": "gnu" | "pad", "data": latin-1 str,
                "mtime": int, "uid": int, "gid": int, "mode": int}, ...],
-  "ops":     [op, ...]                   the history; member indices are taken modulo len(members)
+                                         instead of "data" a member may carry "gen": [piece, ...],
+                                         a compact description of (big) contents, see
+                                         gen/c06_archives.expand_pieces: ["lit", str],
+                                         ["repeat", pattern, count], ["noise", seed, size] (arbitrary
+                                         bytes), ["line", seed, size] (arbitrary bytes except \n)
+  "ops":     [op, ...]                   the history; member indices are taken modulo the number of
+                                         live member objects: len(members) x (1 + reopens so far),
+                                         numbered ArFile by ArFile in order of opening
 }
 op = ["read", i]            m.read()                 ["read", i, n]      m.read(n), n >= 1
      ["readline", i]        m.readline()             ["readline", i, n]  m.readline(n), n >= 0
      ["readlines", i]       m.readlines()            ["tell", i]         m.tell()
      ["close", i]           m.close()
+     ["reopen"]             a further ArFile on the same archive while the earlier ones stay alive and
+                            in use: ArFile(filename=the same path) / ArFile(fileobj=a new BytesIO over
+                            the same bytes).  Its listing is checked like the first one's, its members
+                            start at position 0 and join the live member objects, each with a shadow
+                            of its own.  At most 3 per history (further ones are skipped).
      ["seek", i, whence, target]   m.seek(target - base, whence) with base = 0 | current position |
                                    member size: *target* >= 0 is the absolute position aimed at, so
                                    every generated seek has a non-negative target by construction.
@@ -33,11 +45,19 @@ from debian.arfile import ArFile
 ID = "C06"
 LEVEL = "exploration"
 RULE = ("cases are (open mode, 0..5 members with name/style/binary data/metadata, history of 1..25 "
-        "read/read(n)/readline/readline(n)/readlines/seek/tell/close operations interleaved over all "
-        "members); after every step the returned value and the tell() of *every* member are compared "
-        "with an io.BytesIO shadow per member. Enumerated: every history of <=3 operations (thorough: "
+        "read/read(n)/readline/readline(n)/readlines/seek/tell/close/reopen operations interleaved over all "
+        "members); reopen opens a further ArFile on the same archive (same path / same bytes) while the earlier "
+        "ones stay in use, and its members join the history; after every step the returned value and the tell() "
+        "of *every* member object of *every* ArFile are compared with an io.BytesIO shadow per member object. "
+        "Enumerated: every history of <=3 operations (thorough: "
         "<=4 for four of the contents) from a 14-operation alphabet x 2 members, over 8 first-member "
-        "contents, both open modes (filename mode one operation shorter); generated: Hypothesis archives x histories; thorough also builds "
+        "contents, both open modes (filename mode one operation shorter); every history of <=3 steps with "
+        "exactly one reopen (quick: 4 contents, filename mode without the shapes Roo/ooR); big members: for "
+        "each power of two B from 4 KiB to 1 MiB, 11 first-member contents of 1..3.25 B bytes, written as "
+        "lit/repeat/noise/line pieces and expanded in the check, x 10 fixed histories x both open modes. "
+        "Generated: Hypothesis archives x histories (members <=64 bytes); Hypothesis big members (1..4 pieces "
+        "with sizes k*2**e+d, e = 12..20, k = 1..3, d = -3..3, <=3.5 MiB) x histories of <=12 operations whose "
+        "read/readline sizes and seek targets are drawn from the same k*2**e+d family; thorough also builds "
         "the archive with binutils ar. Non-trivial = >=2 members and (a readline/readlines call that "
         "has to return the unterminated last line of its member, or a read-family call that starts "
         "at a position beyond the member's end); distinct = distinct canonical JSON of the case")
@@ -47,6 +67,13 @@ ASSUMPTIONS = [
     "against binutils ar qcD in the ar-binary source when /usr/bin/ar exists",
     "read(0)/negative sizes, readlines(hint), negative seek targets, next()/iteration are outside "
     "the statement and never generated; seek()'s return value is not compared (checked via tell())",
+    "a further ArFile on the same archive, opened while the first is alive, is 're-opening by file name' / "
+    "another reader of the same bytes: its members are files of their own, starting at 0 (fileobj mode "
+    "gives it a BytesIO of its own over the same bytes - the harness never moves a file object it has "
+    "handed to the library)",
+    "big contents come from vcheck/gen/c06_archives.expand_pieces: hashlib.shake_256 of a small integer for "
+    "'noise' (and with \\n mapped to \\r for 'line'), bytes repetition for 'repeat'; members above "
+    "1 MiB occur only in the big-members sources (a few hundred enumerated and a few generated cases per run)",
     "Hypothesis 6.168 generators; sha1 for distinctness",
 ]
 EXHAUSTIVE = {
@@ -56,7 +83,23 @@ EXHAUSTIVE = {
                 "contents of the first member, in both open modes; histories of 4 operations for the first-member "
                 "contents 'a', 'ab', 'a\\n', 'a\\nb' (odd/even size x with/without final newline) in fileobj mode",
 }
+EXHAUSTIVE_REOPEN = {
+    "quick": "all histories of the shapes R, Ro, oR, oRo (fileobj mode also Roo, ooR) - R = a second ArFile on "
+             "the same archive, o = one of the 14 operations on any of the 2 (after R: 4) live member objects - "
+             "x the first-member contents 'a', 'ab', 'a\\n', 'a\\nb'",
+    "thorough": "all histories of the shapes R, Ro, oR, Roo, oRo, ooR (R = a second ArFile on the same archive, "
+                "o = one of the 14 operations on any of the 2, after R 4, live member objects) x 8 contents of "
+                "the first member, in both open modes",
+}
+EXHAUSTIVE_BIG = ("for every block size B = 2**12 .. 2**20: 11 contents of a first member of 1..3.25 B bytes (one "
+                  "line without end, a line of 3 B inside short ones, a line of 1.25 B, arbitrary bytes, short "
+                  "lines filling exactly B / 2B or ending 1..3 bytes past / 1 byte before a multiple of B) x 10 "
+                  "fixed histories (readlines from the start, after a seek, after read(B+1), after readline(B+5); "
+                  "read()/readline loops; a second ArFile) x both open modes")
 BUDGET = {"quick": 200, "thorough": 1500}
+
+MAX_MEMBER_SIZE = 8 << 20     # replay files only: generated members stay below 4 MiB
+MAX_REOPENS = 3
 
 NAME_ALPHABET = "abcdefghijklmnopqrstuvwxyzABCDEFGHIJKLMNOPQRSTUVWXYZ0123456789._+-"
 
@@ -68,7 +111,12 @@ NAME_ALPHABET = "abcdefghijklmnopqrstuvwxyzABCDEFGHIJKLMNOPQRSTUVWXYZ0123456789.
 def _valid_member(m):
     try:
         name = s2b(m["name"])
-        s2b(m["data"])
+        if "gen" in m:
+            sizes = [A.piece_size(p) for p in m["gen"]]
+            if "data" in m or None in sizes or sum(sizes) > MAX_MEMBER_SIZE:
+                return False
+        else:
+            s2b(m["data"])
     except (UnicodeEncodeError, KeyError, TypeError, AttributeError):
         return False
     if m.get("style", "gnu") not in ("gnu", "pad"):
@@ -82,6 +130,8 @@ def _valid_member(m):
 
 
 def _valid_op(op):
+    if op == ["reopen"]:
+        return True
     if not isinstance(op, list) or len(op) < 2 or not isinstance(op[1], int) or op[1] < 0:
         return False
     k, n = op[0], len(op)
@@ -180,23 +230,73 @@ def _listing(ar, ms, labels):
     return mem
 
 
-def _run_history(mem, ms, ops, labels):
+def _size_class(n):
+    return ("<4KiB" if n < 4096 else "4KiB..64KiB" if n < 65536 else "64KiB..1MiB" if n < (1 << 20)
+            else ">=1MiB")
+
+
+def _brief(x):
+    """short() for values that may hold megabytes: counts and both ends instead of a huge repr."""
+    if isinstance(x, bytes) and len(x) > 100:
+        return "<%d bytes: %r ... %r>" % (len(x), x[:20], x[-20:])
+    if isinstance(x, list) and all(isinstance(e, bytes) for e in x) \
+            and (len(x) > 8 or any(len(e) > 100 for e in x)):
+        return "<%d lines, %d bytes in all, line lengths %s%s>" % (
+            len(x), sum(map(len, x)), [len(e) for e in x[:8]], ", ..." if len(x) > 8 else "")
+    return short(x, 120)
+
+
+def _first_difference(got, exp):
+    """' - first difference at byte N of the result' for big results of the right type, else ''."""
+    if isinstance(got, list) and isinstance(exp, list) and all(isinstance(e, bytes) for e in got):
+        got, exp = b"".join(got), b"".join(exp)
+    if not (isinstance(got, bytes) and isinstance(exp, bytes)) or max(len(got), len(exp)) <= 100:
+        return ""
+    n = min(len(got), len(exp))
+    k = next((k for k in range(0, n, 4096) if got[k:k + 4096] != exp[k:k + 4096]), None)
+    if k is None:
+        return " - the %s one is a prefix of the other" % ("shorter" if len(got) != len(exp) else "same")
+    k = next(j for j in range(k, n + 1) if got[j:j + 1] != exp[j:j + 1])
+    return " - as byte strings they first differ at byte %d of the result" % k
+
+
+def _run_history(mem, ms, ops, labels, reopen):
     """Apply ops to the real members and to BytesIO shadows; compare after every step.
 
-    Returns True when the history met the non-triviality rule's second half.
+    mem: the member objects of the first ArFile; reopen(): opens a further ArFile on the same
+    archive, checks its listing and returns its member objects.  Every member object of every
+    ArFile has a shadow of its own.  Returns True when the history met the non-triviality rule's
+    second half.
     """
     datas = [m["data"] for m in ms]
+    nm = len(datas)
+    mem = list(mem)
     shadows = [io.BytesIO(d) for d in datas]
     interesting = False
     touched_prev = None
     closed = set()
     for step, op in enumerate(ops):
         kind = op[0]
-        i = op[1] % len(mem)
-        m, s, size = mem[i], shadows[i], len(datas[i])
-        start = s.tell()
         got = exp = None
         sit = None
+        i = None
+        before = len(mem)
+        if kind == "reopen":
+            if len(mem) // nm > MAX_REOPENS:
+                labels.add("reopen:skipped")
+                continue
+            if any(s.tell() for s in shadows):
+                labels.add("reopen-while-earlier-members-are-mid-file")
+            mem.extend(reopen())
+            shadows.extend(io.BytesIO(d) for d in datas)
+            labels.add("arfiles:%d" % (len(mem) // nm))
+            what = "step %d reopen (ArFile number %d on the same archive)" % (step, len(mem) // nm)
+        else:
+            i = op[1] % len(mem)
+            m, s, size = mem[i], shadows[i], len(datas[i % nm])
+            start = s.tell()
+            what = "step %d %s on member %d%s (%d bytes, position %d)" % (
+                step, op, i % nm, " of ArFile number %d" % (i // nm + 1) if len(mem) > nm else "", size, start)
         if kind == "read":
             if len(op) == 2:
                 got, exp = m.read(), s.read()
@@ -227,7 +327,6 @@ def _run_history(mem, ms, ops, labels):
             m.close()
             closed.add(i)
         labels.add("op:" + kind)
-        what = "step %d %s on member %d (%d bytes, position %d)" % (step, op, i, size, start)
 
         if kind in ("read", "readline", "readlines"):
             sit = _situation(kind, start, size, exp)
@@ -242,6 +341,14 @@ def _run_history(mem, ms, ops, labels):
                 interesting = True
             if sit == "at-member-end" and start == size:
                 labels.add("read-at-exact-end")
+            nbytes = sum(map(len, exp)) if kind == "readlines" else len(exp)
+            if nbytes >= 4096:
+                labels.add("%s-returns:%s" % (kind, _size_class(nbytes)))
+                longest = max(map(len, exp)) if kind == "readlines" else len(exp) if kind == "readline" else 0
+                if longest >= 4096:
+                    labels.add("%s-line:%s" % (kind, _size_class(longest)))
+            if any(shadows[j].tell() != start for j in range(i % nm, len(mem), nm) if j != i):
+                labels.add("same-member-of-another-arfile-at-another-position")
             ok = (type(got) is type(exp) and got == exp
                   and (kind != "readlines" or all(type(x) is bytes for x in got)))
             if not ok:
@@ -249,8 +356,8 @@ def _run_history(mem, ms, ops, labels):
                 flat = b"".join(got) if isinstance(got, list) and all(isinstance(x, bytes) for x in got) else got
                 if isinstance(flat, bytes) and len(flat) > max(0, size - start):
                     leak = " - returns bytes from outside the member"
-                raise Violation("%s:%s" % (_family(kind), sit), "%s returned %s, an in-memory file gives %s%s" % (
-                    what, short(got, 120), short(exp, 120), leak))
+                raise Violation("%s:%s" % (_family(kind), sit), "%s returned %s, an in-memory file gives %s%s%s" % (
+                    what, _brief(got), _brief(exp), _first_difference(got, exp), leak))
         elif kind == "tell":
             if type(got) is not int or got != exp:
                 raise Violation("tell", "%s returned %r, expected %r" % (what, got, exp))
@@ -259,13 +366,22 @@ def _run_history(mem, ms, ops, labels):
             tj, ej = mm.tell(), ss.tell()
             if tj == ej:
                 continue
+            who = "member %d%s" % (j % nm, " of ArFile number %d" % (j // nm + 1) if len(mem) > nm else "")
+            if kind == "reopen" and j >= before:
+                raise Violation("reopen:fresh-member-position", "%s: its %s starts at tell() = %r, "
+                                "an in-memory file starts at 0" % (what, who, tj))
             if j != i:
-                raise Violation("isolation", "%s moved member %d: tell() = %r, expected %r" % (what, j, tj, ej))
+                sig = "isolation" if i is None or j // nm == i // nm else "isolation:between-arfiles"
+                raise Violation(sig, "%s moved %s: tell() = %r, expected %r" % (what, who, tj, ej))
             fam = _family(kind)
             sig = "%s:%s" % (fam, sit) if sit else fam
             raise Violation(sig, "%s left tell() = %r, an in-memory file is at %r" % (what, tj, ej))
+        if i is None:
+            continue
         if touched_prev is not None and touched_prev != i and kind != "tell":
             labels.add("interleaved-members")
+            if touched_prev // nm != i // nm:
+                labels.add("interleaved-arfiles")
         if kind not in ("tell",):
             touched_prev = i
     return interesting
@@ -274,7 +390,8 @@ def _run_history(mem, ms, ops, labels):
 def check(case):
     if not valid_case(case):
         return (False, ("invalid-case-skipped",))
-    ms = [dict(name=s2b(m["name"]), style=m.get("style", "gnu"), data=s2b(m["data"]),
+    ms = [dict(name=s2b(m["name"]), style=m.get("style", "gnu"),
+               data=A.expand_pieces(m["gen"]) if "gen" in m else s2b(m["data"]),
                mtime=m.get("mtime", 0), uid=m.get("uid", 0), gid=m.get("gid", 0),
                mode=m.get("mode", 0o100644)) for m in case["members"]]
     raw, _ = A.ar_archive(ms)
@@ -290,11 +407,15 @@ def check(case):
             labels.add("member-ends-with-newline")
         else:
             labels.add("member-without-final-newline")
+        if len(d) >= 4096:
+            labels.add("member-size:" + _size_class(len(d)))
+            labels.add("member-longest-line:" + _size_class(max(map(len, d.split(b"\n"))) + 1))
         labels.add("style:" + m["style"])
         if len(m["name"]) >= 15:
             labels.add("name-fills-field")
     workdir = None
-    mem = []
+    mem = []            # every member object handed out in this case (for the cleanup)
+    ars = []            # every ArFile opened in this case: all stay alive until the case ends
     try:
         if case["open"] == "filename" or case.get("writer") == "ar":
             workdir = tempfile.mkdtemp(prefix="vcheck-c06-")
@@ -318,13 +439,21 @@ def check(case):
             path = os.path.join(workdir, "case.a")
             with open(path, "wb") as f:
                 f.write(raw)
-            ar = ArFile(filename=path)
-        else:
-            ar = ArFile(fileobj=io.BytesIO(raw))
-        mem = _listing(ar, ms, labels)
+
+        def open_and_list():
+            if case["open"] == "filename":
+                ar = ArFile(filename=path)
+            else:
+                ar = ArFile(fileobj=io.BytesIO(raw))
+            ars.append(ar)
+            new = _listing(ar, ms, labels)
+            mem.extend(new)
+            return new
+
+        first = open_and_list()
         interesting = False
-        if mem:
-            interesting = _run_history(mem, ms, case["ops"], labels)
+        if first:
+            interesting = _run_history(first, ms, case["ops"], labels, open_and_list)
         return (len(ms) >= 2 and interesting, sorted(labels))
     finally:
         for m in mem:
@@ -372,6 +501,104 @@ ENUM_THOROUGH = [("fileobj", ENUM_FIRST, (1, 2, 3)), ("filename", ENUM_FIRST, (1
                  ("fileobj", ENUM_DEEP, (4,))]
 
 
+def enum_reopen_cases(plan):
+    """Histories with exactly one "reopen": plan = list of (open mode, first-member contents, shapes).
+
+    A shape is a string over 'o' (one operation) and 'R' (the reopen), e.g. "oRo": every operation
+    on each of the 2 members, then the reopen, then every operation on each of the 4 live member
+    objects (2 per ArFile).
+    """
+    def gen():
+        for mode, firsts, shapes in plan:
+            for first in firsts:
+                members = [_enum_member("a", first), _enum_member("b", "x\ny")]
+                for shape in shapes:
+                    live, slots = 2, []
+                    for ch in shape:
+                        if ch == "R":
+                            slots.append([["reopen"]])
+                            live += 2
+                        else:
+                            slots.append([[o[0], i] + o[1:] for i in range(live) for o in ENUM_OPS])
+                    for seq in itertools.product(*slots):
+                        yield {"open": mode, "members": members, "ops": [list(o) for o in seq]}
+    return gen
+
+
+REOPEN_ALL = ("R", "Ro", "oR", "Roo", "oRo", "ooR")
+REOPEN_QUICK = [("filename", ENUM_DEEP, ("R", "Ro", "oR", "oRo")), ("fileobj", ENUM_DEEP, REOPEN_ALL)]
+REOPEN_THOROUGH = [("filename", ENUM_FIRST, REOPEN_ALL), ("fileobj", ENUM_FIRST, REOPEN_ALL)]
+
+
+# ------------------------------------------------------------------------------------------
+# big members: contents and positions around multiples of a block size B, for every power of two
+# B from 4 KiB to 1 MiB (buffer and block sizes a reader may work with), x a fixed set of histories
+
+BIG_BLOCKS = [1 << e for e in range(12, 21)]
+LINE64 = "0123456789abcdefghijklmnopqrstuvwxyzABCDEFGHIJKLMNOPQRSTUVWXYZ-+\n"[-64:]
+assert len(LINE64) == 64 and LINE64.endswith("\n")
+LINE61 = "\r" + LINE64[4:]
+assert len(LINE61) == 61
+
+
+def _lines_to(pattern, total, tail="#"):
+    """Pieces for exactly ``total`` bytes of the repeated pattern, the rest filled up newline-free."""
+    return [["repeat", pattern, total // len(pattern)], ["lit", (tail * len(pattern))[:total % len(pattern)]]]
+
+
+def big_contents(B):
+    """(label, pieces) - what a block-wise or buffered reader with block size B may get wrong."""
+    return [
+        # no line end at all, 2.5 blocks, odd size
+        ("one-line", [["line", 1, 2 * B + B // 2 + 1]]),
+        # a line of more than 3 blocks between short ones, last line unterminated
+        ("long-line-inside", [["lit", "head\n"], ["line", 2, 3 * B + 1], ["lit", "\nmid\n\ntail without newline"]]),
+        # a line of 1.25 blocks that starts at the member's start, then a short unterminated one
+        ("line-1.25-blocks-first", [["line", 3, B + B // 4], ["lit", "\nend"]]),
+        # arbitrary bytes up to 5 bytes before a block end, then a line across the whole next block
+        ("noise-then-line", [["noise", 4, B - 5], ["line", 5, B + 7], ["lit", "\n"]]),
+        # arbitrary binary data, 2.33 blocks
+        ("noise", [["noise", 6, 2 * B + B // 3]]),
+        # short lines, sizes just past a block multiple, last line (unterminated) across the mark
+        ("short-lines-B+3", [["repeat", "\n" + LINE64[:-1], B // 64], ["lit", "xyz"]]),
+        ("short-lines-2B+1", [["repeat", "\n" + LINE64[:-1], 2 * B // 64], ["lit", "z"]]),
+        ("lines-of-61-2B+2", _lines_to(LINE61, 2 * B + 2)),
+        # short lines, exactly one / two blocks, with and without the final newline
+        ("short-lines-exactly-B", [["repeat", LINE64, B // 64]]),
+        ("short-lines-exactly-2B-unterminated", [["repeat", "\n" + LINE64[:-1], 2 * B // 64]]),
+        # just below a multiple
+        ("lines-of-61-3B-1", _lines_to(LINE61, 3 * B - 1)),
+    ]
+
+
+def big_histories(B):
+    """Histories over member 0 (the big one) and member 1 (a small one); positions relative to B."""
+    return [
+        [["readlines", 0], ["tell", 0], ["readlines", 0]],
+        [["seek", 0, 0, 7], ["readline", 1], ["readlines", 0], ["read", 1]],
+        [["readline", 0], ["read", 1, 1], ["readlines", 0]],
+        [["read", 0, B + 1], ["readline", 1], ["readlines", 0], ["readlines", 1]],
+        [["read", 0], ["seek", 0, 0, 0], ["readline", 0], ["readline", 0], ["readline", 0], ["read", 0, 3]],
+        [["readline", 0, B + 5], ["readline", 0, 3], ["readline", 0], ["readlines", 0]],
+        [["seek", 0, 0, B - 3], ["read", 0, 10], ["readlines", 0]],
+        [["seek", 0, 1, B + 1], ["read", 0, 2 * B], ["tell", 0], ["readline", 0], ["readlines", 0]],
+        [["seek", 0, 0, B // 2], ["readlines", 0], ["seek", 0, 2, B], ["readlines", 0]],
+        [["reopen"], ["read", 0, B], ["readlines", 2], ["readlines", 0], ["read", 3]],
+    ]
+
+
+def big_cases(blocks, modes):
+    def gen():
+        for B in blocks:
+            for _label, pieces in big_contents(B):
+                members = [dict(_enum_member("big", ""), gen=pieces), _enum_member("b", "x\ny")]
+                del members[0]["data"]
+                for mode in modes:
+                    for ops in big_histories(B):
+                        yield {"open": mode, "members": members, "ops": ops}
+    return gen
+
+
 # ------------------------------------------------------------------------------------------
 # Hypothesis generators
 
@@ -402,7 +629,9 @@ plain_member_st = st.builds(
     _mk_member, name_st.map(lambda n: "dot" if n in (".", "..") else n), st.just("gnu"), data_st,
     st.just(0), st.just(0), st.just(0), st.just(0o644))
 
-idx_st = st.integers(0, 5)
+# 0..5 reaches every member of the first ArFile (indices are taken modulo the number of live member
+# objects), 0..19 those of the re-opened ones as well
+idx_st = st.one_of(st.integers(0, 5), st.integers(0, 19))
 op_st = st.one_of(
     st.tuples(st.just("read"), idx_st),
     st.tuples(st.just("read"), idx_st, st.integers(1, 45)),
@@ -414,6 +643,7 @@ op_st = st.one_of(
     st.tuples(st.just("seek"), idx_st, st.sampled_from([0, 1, 2]), st.integers(0, 12)),
     st.tuples(st.just("tell"), idx_st),
     st.tuples(st.just("close"), idx_st),
+    st.tuples(st.just("reopen")),
 )
 ops_st = st.lists(op_st, min_size=1, max_size=25)
 
@@ -427,6 +657,56 @@ def case_st(writer="harness"):
     return st.fixed_dictionaries(fixed)
 
 
+# big members: sizes, counts and positions k * 2**e + d around multiples of powers of two
+big_int_st = st.builds(lambda e, k, d: k * 2 ** e + d, st.integers(12, 20), st.integers(1, 3), st.integers(-3, 3))
+big_piece_st = st.one_of(
+    st.tuples(st.just("lit"), data_st),
+    st.tuples(st.just("line"), st.integers(0, 9), big_int_st),
+    st.tuples(st.just("noise"), st.integers(0, 9), big_int_st),
+    st.builds(lambda pat, total: ("repeat", pat, total // len(pat)),
+              st.sampled_from([LINE64, "\n" + LINE64[:-1], LINE61, "ab\n", "\n", "x"]), big_int_st),
+)
+BIG_MAX = 7 << 19     # 3.5 MiB per member
+
+
+def _fit(pieces):
+    """Keep the leading pieces that fit into BIG_MAX bytes (the first one is cut down if need be)."""
+    out, total = [], 0
+    for p in pieces:
+        p = list(p)
+        n = A.piece_size(p)
+        if not out and n > BIG_MAX:
+            p[2] = BIG_MAX // (len(p[1]) if p[0] == "repeat" else 1)
+            n = A.piece_size(p)
+        if total + n > BIG_MAX:
+            break
+        out.append(p)
+        total += n
+    return out
+
+
+def _mk_big_member(name, pieces):
+    return {"name": name[:15], "style": "gnu", "gen": _fit(pieces), "mtime": 0, "uid": 0, "gid": 0, "mode": 0o644}
+
+
+big_member_st = st.builds(_mk_big_member, name_st, st.lists(big_piece_st, min_size=1, max_size=4))
+big_op_st = st.one_of(
+    op_st,
+    st.tuples(st.just("readlines"), idx_st),
+    st.tuples(st.just("read"), idx_st, big_int_st),
+    st.tuples(st.just("readline"), idx_st, big_int_st),
+    st.tuples(st.just("seek"), idx_st, st.sampled_from([0, 1, 2]), big_int_st),
+    st.tuples(st.just("seek"), idx_st, st.just(0), st.integers(0, 12)),
+)
+big_case_st = st.fixed_dictionaries({
+    "open": st.sampled_from(["fileobj", "filename"]),
+    "members": st.builds(lambda before, big, after: before + [big] + after,
+                         st.lists(member_st, max_size=1), big_member_st,
+                         st.lists(st.one_of(member_st, big_member_st), max_size=1)),
+    "ops": st.lists(big_op_st, min_size=1, max_size=12),
+})
+
+
 def externals_phase(shard, nshards, seed, deadline, rec):
     rec.note("external:ar:" + ("present" if A.AR_BIN else "missing"))
 
@@ -436,9 +716,15 @@ def sources(tier):
     if tier == "quick":
         return [Custom("externals", externals_phase, shards=1),
                 Hyp("ar-binary", case_st("ar"), 60, shards=1),
+                Hyp("big-members-x-histories", big_case_st, 40, shards=2),
+                Enum("big-members", big_cases(BIG_BLOCKS, ["fileobj", "filename"]), EXHAUSTIVE_BIG),
                 Hyp("archives-x-histories", case_st(), 1200, shards=8),
+                Enum("one-reopen", enum_reopen_cases(REOPEN_QUICK), EXHAUSTIVE_REOPEN["quick"]),
                 Enum("histories<=3", enum_cases(ENUM_QUICK), EXHAUSTIVE["quick"])]
     return [Custom("externals", externals_phase, shards=1),
             Hyp("ar-binary", case_st("ar"), 150, shards=4),
+            Hyp("big-members-x-histories", big_case_st, 150, shards=8),
+            Enum("big-members", big_cases(BIG_BLOCKS, ["fileobj", "filename"]), EXHAUSTIVE_BIG),
             Hyp("archives-x-histories", case_st(), 6000, shards=16),
+            Enum("one-reopen", enum_reopen_cases(REOPEN_THOROUGH), EXHAUSTIVE_REOPEN["thorough"]),
             Enum("histories<=4", enum_cases(ENUM_THOROUGH), EXHAUSTIVE["thorough"])]
